@@ -17,7 +17,7 @@ M = models
 DOCS = {
     'txn': '; lead\n2000-01-01 * "p" "n" #t ^l ; ic\n  kk: 1\n  ; mc\n  k2: Assets:Z\n  ! Assets:A  1+2 USD {2 EUR, 2000-01-02, "lb", *} @ 3 GBP ; pic\n    mm: "x"\n  ; between\n  Assets:B  -1 USD {{4 # 5 CHF}} @@ 6 JPY\n; trail\n\n; standalone\n\n2000-01-02 open Assets:A USD, EUR "STRICT"\n',
     'dirs': 'option "a" "b"\ninclude "x.bean"\nplugin "p" "cfg"\npushtag #t\npoptag #t\npushmeta kk: 1\npopmeta kk:\n* ignored\n2000-01-01 balance Assets:A 1 ~ 0.1 USD\n  kk: "v"\n2000-01-02 close Assets:A\n2000-01-03 commodity USD\n2000-01-04 pad Assets:A Equity:B\n',
-    'dirs2': '2000-01-05 event "a" "b"\n2000-01-06 query "a" "b"\n2000-01-07 price USD 1.5 EUR\n; c above note\n2000-01-08 note Assets:A "n" #a ^b\n; c below note\n2000-01-09 document Assets:A "p" ^l\n2000-01-10 custom "t" "s" 2000-01-02 TRUE 1 USD 2 Assets:A\n  kk: NULL\n',
+    'dirs2': '2000-01-05 event "a" "b"\n2000-01-06 query "a" "b"\n2000-01-07 price USD 2 * 3 / 4 - 5 - 6 EUR\n; c above note\n2000-01-08 note Assets:A "n" #a ^b\n; c below note\n2000-01-09 document Assets:A "p" ^l\n2000-01-10 custom "t" "s" 2000-01-02 TRUE 1 USD 2 Assets:A\n  kk: NULL\n',
     'comments': '; c0\n2000-01-01 open Assets:A\n; c1\n2000-01-02 open Assets:B\n\n; c2\n\n2000-01-03 *\n  ; c3\n  Assets:A  1 USD\n    ; c4\n    aa: 1\n  ; c5\n',
 }
 
